@@ -215,3 +215,107 @@ Proof.
   split; [reflexivity|]. split; [reflexivity|]. split; [reflexivity|].
   split; vm_compute; reflexivity.
 Qed.
+
+(* ======================================================================================
+   SOURCE TIE (DESIGN.md section 10, notes/C01_tie_report.md).  The statements below are about the
+   Python text of `_string_matching` itself: PV.Gen.C01Src.{sm_pre, sm_row0, sm_main, sm_fin,
+   sm_loop, sm_lens} are regenerated from /repo by harness/py2coq/translate.py on every run,
+   PV.MiniPy.Interp interprets them, the torch calls mean what PV.MiniTorch.OpsC01 / OpsC07 say
+   (PV.C01.SrcRun.ext01).  Plain edit-distance configuration (the call made by edit_distance /
+   EditDistance: return_mask = return_prf_dsts = return_mistakes = exclude_last = False).  A float
+   cost is c / s for integers ci cd cs over any common denominator s; [TieMath.zf s v] is the
+   float v / s; [TieLib.runs_to P o]: the run o ends normally in a state satisfying P.
+   ====================================================================================== *)
+From PV Require MiniPy.Syntax MiniPy.Interp MiniTorch.OpsC07 MiniTorch.OpsC01 C01.SrcRun C01.TieLib C01.TieMath
+  C01.TieLoop C01.TieWhole C01.Tie.
+
+(* priority 1: ONE EXECUTION OF THE LOOP BODY (hyp_idx = k) on ref (R x N), hyp (H x N), hyp_lens (N), del_mat
+   ((R+1) x (R+1) x 1) and the current row ((R+1) x N, column n = lf . n) leaves in `row`, for every column n,
+   exactly Model.step_row of that column: insertion / substitution candidates, the fold through del_mat,
+   freezing by not_done - every batch size, widths, lengths, costs; everything else the loop reads is unchanged *)
+Theorem c01_source_loop_body_is_step_row :
+  forall (s : positive) (ci cd cs : Z) (R N H : nat) (rf hf : nat -> nat -> Z) (hl : nat -> nat)
+         (vrl vmult vnorm vwarn : MiniPy.Syntax.val) (st : MiniPy.Interp.state) (k : nat) (lf : nat -> nat -> Z),
+  (1 <= k <= H)%nat ->
+  TieLoop.body_pre s ci cd cs R N H rf hf hl vrl vmult vnorm vwarn lf st ->
+  TieLib.runs_to
+    (TieLoop.body_pre s ci cd cs R N H rf hf hl vrl vmult vnorm vwarn
+       (fun i n => nth i (step_row ci cd cs (TieLoop.colf R rf n) (TieLoop.colf H hf n) (hl n) false k
+                            (TieLoop.colf (S R) lf n)) 0))
+    (Tie.run_loop_body k st).
+Proof. exact Tie.loop_body_is_step_row. Qed.
+Print Assumptions c01_source_loop_body_is_step_row.
+
+(* the whole `for hyp_idx in range(1, max_hyp_steps + 1)` statement: H iterations of step_row from the row held
+   on entry, in every column *)
+Theorem c01_source_loop_is_rows :
+  forall (s : positive) (ci cd cs : Z) (R N H : nat) (rf hf : nat -> nat -> Z) (hl : nat -> nat)
+         (vrl vmult vnorm vwarn : MiniPy.Syntax.val) (st : MiniPy.Interp.state) (lf : nat -> nat -> Z),
+  TieLoop.body_pre s ci cd cs R N H rf hf hl vrl vmult vnorm vwarn lf st -> Tie.max_hyp_steps_is H st ->
+  TieLib.runs_to
+    (TieLoop.body_pre s ci cd cs R N H rf hf hl vrl vmult vnorm vwarn
+       (fun i n => nth i (TieMath.iter_rows ci cd cs (TieLoop.colf R rf n) (TieLoop.colf H hf n) (hl n) H 1
+                            (TieLoop.colf (S R) lf n)) 0))
+    (Tie.run_loop st).
+Proof. exact Tie.loop_is_rows. Qed.
+Print Assumptions c01_source_loop_is_rows.
+
+(* priorities 2-4: THE WHOLE CALL.  The blocks sm_pre; sm_row0; sm_main; sm_fin, run in sequence on the
+   arguments of the call (ref / hyp as handed over: N rows of width R / H when batch_first, else R / H rows of
+   width N; any eos, include_eos, norm, batch_first, warn; costs c / s), return the tensor of Model.edit_distance,
+   entry for entry: Cost v as the float v / s, Ratio v d as (v / s) / d, Lit z as z.  (With an eos a zero-width
+   tensor makes the source raise - torch.max over an empty dimension - hence the hypothesis.) *)
+Theorem c01_source_edit_distance_is_model :
+  forall (s : positive) (c : cfg) (N R H : nat) (ref hyp : list (list Z)) (w : bool) (pad : Z),
+  (0 < N)%nat -> Tie.wf_src (c_bf c) N R ref -> Tie.wf_src (c_bf c) N H hyp ->
+  (c_eos c <> None -> R <> 0%nat /\ H <> 0%nat) ->
+  exists st', Tie.run_edit_distance s c N ref hyp w pad
+              = MiniPy.Interp.Ok
+                  (MiniTorch.OpsC01.enc_x
+                     (MiniTorch.OpsC07.mkTn [N] (map (TieWhole.val_fx s) (edit_distance c N ref hyp)))) st'.
+Proof. exact Tie.edit_distance_is_model. Qed.
+Print Assumptions c01_source_edit_distance_is_model.
+
+(* the executable the harness evaluates on the cases of every run IS that run *)
+Theorem c01_source_src_ed_is_model :
+  forall (c : cfg) (scale : Z) (N R H : nat) (ref hyp : list (list Z)),
+  (0 < N)%nat -> Tie.wf_src (c_bf c) N R ref -> Tie.wf_src (c_bf c) N H hyp ->
+  (c_eos c <> None -> R <> 0%nat /\ H <> 0%nat) ->
+  SrcRun.src_ed SrcRun.sm_blocks c scale N ref hyp
+  = Some (Some (map (TieWhole.val_fx (Z.to_pos scale)) (edit_distance c N ref hyp))).
+Proof. exact Tie.src_ed_is_model. Qed.
+Print Assumptions c01_source_src_ed_is_model.
+
+(* composed with c01_edit_distance_correct - a statement purely about the interpreted source: without
+   normalisation entry n of the returned tensor is the weighted Levenshtein distance (in units of 1 / s) of
+   reference n and hypothesis n, each cut at its first eos (that eos kept when include_eos and it is there) *)
+Theorem c01_source_edit_distance_is_lev :
+  forall (s : positive) (c : cfg) (N R H : nat) (ref hyp : list (list Z)) (w : bool) (pad : Z),
+  (0 < N)%nat -> Tie.wf_src (c_bf c) N R ref -> Tie.wf_src (c_bf c) N H hyp ->
+  (c_eos c <> None -> R <> 0%nat /\ H <> 0%nat) -> c_norm c = false ->
+  exists out st',
+    Tie.run_edit_distance s c N ref hyp w pad
+    = MiniPy.Interp.Ok (MiniTorch.OpsC01.enc_x (MiniTorch.OpsC07.mkTn [N] out)) st' /\
+    length out = N /\
+    forall n, (n < N)%nat ->
+      nth n out MiniTorch.OpsC01.FNaN =
+      TieMath.zf s (lev (c_ins c) (c_del c) (c_sub c)
+                      (denote (c_eos c) (c_incl c) (seq_of (c_bf c) n ref))
+                      (denote (c_eos c) (c_incl c) (seq_of (c_bf c) n hyp))).
+Proof. exact Tie.edit_distance_is_lev. Qed.
+Print Assumptions c01_source_edit_distance_is_lev.
+
+(* non-vacuity: the batch of c01_nonvacuous (batch-first, eos = 9, include_eos, norm, costs 1/2, 1, 3/2) meets the
+   hypotheses, and the interpreted source returns 1/3, 5/2, 7/8 = (4/4)/3, (10/4)/1, (14/4)/4 *)
+Example c01_source_nonvacuous :
+  let c := mkCfg (Some 9) true true true 2 4 6 0 false in
+  let ref := [[1; 2; 9; 5]; [9; 1; 1; 9]; [3; 3; 3; 3]] in
+  let hyp := [[1; 9; 7]; [2; 2; 2]; [3; 9; 9]] in
+  Tie.wf_src (c_bf c) 3 4 ref /\ Tie.wf_src (c_bf c) 3 3 hyp /\
+  SrcRun.src_ed SrcRun.sm_blocks c 4 3 ref hyp
+  = Some (Some [MiniTorch.OpsC01.Fq (1 # 3)%Q; MiniTorch.OpsC01.Fq (5 # 2)%Q; MiniTorch.OpsC01.Fq (7 # 8)%Q]).
+Proof.
+  cbv zeta. split; [split; [reflexivity|intros row [<-|[<-|[<-|[]]]]; reflexivity]|].
+  split; [split; [reflexivity|intros row [<-|[<-|[<-|[]]]]; reflexivity]|].
+  vm_compute. reflexivity.
+Qed.
